@@ -298,7 +298,10 @@ class Intervals(object):
         i = e.get_id()
         r = self.memo.get(i)
         if r is None:
-            r = self._ival(e)
+            try:
+                r = self._ival(e)
+            except RecursionError:
+                r = (None, None)
             self.memo[i] = r
             self.keep.append(e)
         return r
@@ -360,7 +363,10 @@ class Intervals(object):
         i = ("b", e.get_id())
         if i in self.memo:
             return self.memo[i]
-        r = self._truth(e)
+        try:
+            r = self._truth(e)
+        except RecursionError:
+            r = None
         self.memo[i] = r
         self.keep.append(e)
         return r
@@ -480,6 +486,44 @@ def zreal(x):
     raise TypeError("not a real-like value: %r" % type(x))
 
 
+I64_LO, I64_HI = -2 ** 63, 2 ** 63 - 1
+
+
+def _interval(e):
+    if ENG is None:
+        return (None, None)
+    return ENG.ivals.ival(z3.simplify(e))
+
+
+def wrap64(e):
+    """two's-complement int64 wrap-around of an integer term -- applied to numpy-typed results only when the interval
+    analysis cannot show that the value fits (so ordinary small values keep their plain terms)."""
+    lo, hi = _interval(e)
+    if lo is not None and hi is not None and lo >= I64_LO and hi <= I64_HI:
+        return e
+    return ((e + 2 ** 63) % (2 ** 64)) - 2 ** 63
+
+
+def fl_int(e):
+    """binary64 rounding (round-half-even) of a non-negative integer term below 2^64; identity when the interval
+    analysis shows |e| < 2^53."""
+    lo, hi = _interval(e)
+    if lo is not None and hi is not None and lo > -2 ** 53 and hi < 2 ** 53:
+        return e
+    if lo is None or lo < 0 or hi is None or hi >= 2 ** 64:
+        raise Inconclusive("int -> float conversion of a value that is not provably in [0, 2^64)")
+    r = e
+    for b in range(53, 64):
+        if hi < 2 ** b:
+            break
+        u = 2 ** (b - 52)                 # spacing of doubles in [2^b, 2^(b+1))
+        q, m = e / u, e % u
+        half = u // 2
+        rounded = z3.If(m < half, q * u, z3.If(m > half, (q + 1) * u, z3.If(q % 2 == 0, q * u, (q + 1) * u)))
+        r = z3.If(e >= 2 ** b, rounded, r)
+    return r
+
+
 def concrete_int(x):
     """Python int of a (possibly symbolic) int-like; forks when symbolic."""
     if isinstance(x, (SymInt, SymBool)):
@@ -519,7 +563,8 @@ class SymInt(_SymBase):
 
     # helpers
     def _w(self, e, o=None):
-        return SymInt(e, self.np or bool(getattr(o, "np", False)) or type(o).__module__ == "numpy")
+        npf = self.np or bool(getattr(o, "np", False)) or type(o).__module__ == "numpy"
+        return SymInt(wrap64(e) if npf else e, npf)
 
     def _other_ok(self, o):
         return _is_num(o)
@@ -619,6 +664,10 @@ class SymInt(_SymBase):
             if s.np or type(o).__module__ == "numpy":
                 raise Inconclusive("numpy division by zero")
             raise ZeroDivisionError("division by zero")
+        lo, hi = _interval(s.e)
+        if lo is not None and lo >= 0 and hi is not None and hi >= 2 ** 53:
+            # the numerator is converted to binary64 first: model its rounding exactly (division by a power of two is exact)
+            return SymReal(z3.ToReal(fl_int(s.e)) / zreal(o))
         return SymReal(zreal(s) / zreal(o))
 
     def __rtruediv__(s, o):
